@@ -13,7 +13,14 @@ pub fn partial_sources(parts: &J) -> Result<Vec<(String, String)>, String> {
     let mut v = Vec::new();
     if let Some(m) = parts.as_object() {
         for (name, p) in m {
-            let src = if p["ok"] == true { ast::block(&p["body"])? } else { BROKEN_PARTIAL.to_string() };
+            // a partial is given as source text (from-text corpora), as a program to print, or as "broken"
+            let src = if let Some(t) = p.get("src") {
+                crate::val::dec_text(t).ok_or("bad partial src")?
+            } else if p["ok"] == true {
+                ast::block(&p["body"])?
+            } else {
+                BROKEN_PARTIAL.to_string()
+            };
             v.push((name.clone(), src));
         }
     }
